@@ -515,7 +515,7 @@ def r17_8_variable_precision_predicates(ctx: Ctx) -> RuleResult:
                             return v
         return None
 
-    def atoms_of(pe: ast.expr, f) -> set[str] | None:
+    def atoms_of(pe: ast.expr, f, depth: int = 0) -> set[str] | None:
         body = None
         if isinstance(pe, ast.Lambda):
             body, par = pe.body, pe.args.args[0].arg
@@ -534,6 +534,13 @@ def r17_8_variable_precision_predicates(ctx: Ctx) -> RuleResult:
         conj = body.values if isinstance(body, ast.BoolOp) and isinstance(body.op, ast.And) else [body]
         out = set()
         for c in conj:
+            # a conjunct that is a call of a sibling predicate on the same value contributes that predicate's tests
+            if isinstance(c, ast.Call) and isinstance(c.func, ast.Name) and len(c.args) == 1 and isinstance(c.args[0], ast.Name) and c.args[0].id == par and depth < 3:
+                sub = atoms_of(c.func, f, depth + 1)
+                if sub is None:
+                    return None
+                out |= sub
+                continue
             if isinstance(c, ast.Compare) and len(c.ops) == 1 and isinstance(c.ops[0], ast.Eq) and isinstance(c.comparators[0], ast.Constant) and c.comparators[0].value == 0 \
                     and isinstance(c.left, ast.Attribute) and isinstance(c.left.value, ast.Name) and c.left.value.id == par:
                 out.add(c.left.attr)
